@@ -4,6 +4,8 @@ Enumerated (exhaustively, no sampling): ALL ordered sets of 1..2 (quick) / 1..3 
 alphabet of 12 service shapes (shared, nested and empty constant request prefixes, tails of differing length,
 a coded constant behind a value, positive responses with MATCHING-REQUEST-PARAMs inside / outside / straddling
 the constant prefix, negative responses with NRC-CONST lists {11,12} / {31}) x 0..2 global negative responses;
+plus ALL ordered sets of the same sizes over a second alphabet (requests whose leading constant is one 16 / 24 bit
+CODED-CONST or is split 4+4 / 4+12 bits, together with S10b and S22F190) that contain one of the new shapes;
 one diagnostic layer per set, emitted as ODX and loaded by the real loader.  Per layer:
   * DiagLayer.decode(M) for ALL byte strings M of length <= 3 (quick) / <= 4 (thorough) over the layer's byte
     alphabet (every byte of a coded constant / NRC list of the layer, plus 00 and FF) and for the own encodings of
@@ -35,6 +37,15 @@ DOPS = [{"name": "u8", "dct": U8}, {"name": "u16", "dct": U16}]
 
 def cc(name: str, v: int) -> Dict[str, Any]:
     return {"t": "CODED-CONST", "name": name, "dct": U8, "value": v}
+
+
+def ccn(name: str, v: int, bits: int, byte: Optional[int] = None, bit: Optional[int] = None) -> Dict[str, Any]:
+    d: Dict[str, Any] = {"t": "CODED-CONST", "name": name, "dct": {"k": "STD", "base": "A_UINT32", "bits": bits}, "value": v}
+    if byte is not None:
+        d["byte"] = byte
+    if bit is not None:
+        d["bit"] = bit
+    return d
 
 
 def val(name: str, dop: str, byte: Optional[int] = None) -> Dict[str, Any]:
@@ -85,6 +96,18 @@ SHAPES: Dict[str, Tuple[List[Dict[str, Any]], Optional[str], Optional[str]]] = {
     "Eb": ([val("x", "u8")], "pr50e0", None),
 }
 SHAPE_NAMES = list(SHAPES)
+# second alphabet: the leading constant of the request is NOT one 8-bit CODED-CONST (one wider constant, or split at
+# a nibble).  Explored in layers of their own (together with S10b and S22F190, whose prefixes they share) so that the
+# main alphabet stays at 12 shapes.
+SHAPES.update({
+    "W16": ([ccn("sidsub", 0x1003, 16)], "pr50e", "nrA"),                                       # 10 03
+    "W16b": ([ccn("sidsub", 0x1001, 16), val("x", "u8")], "pr50ep", None),                      # 10 01 xx
+    "W24": ([ccn("siddid", 0x22F190, 24)], "pr62e2", "nrA"),                                    # 22 F1 90
+    "N44": ([ccn("hi", 0x1, 4, 0, 4), ccn("lo", 0x0, 4, 0, 0), val("x", "u8", 1)], "pr50e", "nrA"),   # 1|0 xx
+    "N412": ([ccn("hi", 0x1, 4, 0, 4), ccn("rest", 0x003, 12, 0, 0)], "pr50e", "nrB"),           # 1|0 03
+})
+WIDE_NAMES = ["W16", "W16b", "W24", "N44", "N412"]
+WIDE_ALPHABET = WIDE_NAMES + ["S10b", "S22F190"]
 VALUES = {"u8": [0x00, 0x01, 0x5A, 0xFF], "u16": [0x0000, 0x0102, 0xF190, 0xA55A]}
 RESP_VALUES = {"u8": [0x00, 0x5A]}
 
@@ -459,6 +482,14 @@ def service_sets(maxsize: int) -> List[Tuple[str, ...]]:
     return out
 
 
+def wide_sets(maxsize: int) -> List[Tuple[str, ...]]:
+    """all ordered sets over the second alphabet that contain at least one of its new shapes"""
+    out: List[Tuple[str, ...]] = []
+    for n in range(1, maxsize + 1):
+        out.extend(t for t in itertools.permutations(WIDE_ALPHABET, n) if set(t) & set(WIDE_NAMES))
+    return out
+
+
 def build(confs: List[Tuple[Tuple[str, ...], int]]) -> Tuple[Any, List[Dict[str, Any]]]:
     specs = [layer_spec(f"L{i}", list(shapes), ngnr) for i, (shapes, ngnr) in enumerate(confs)]
     db = emit.load_db({"containers": [{"name": "C", "layers": specs}]})
@@ -518,7 +549,7 @@ def samples(ctx: Ctx) -> None:
 def run(ctx: Ctx) -> None:
     maxset = 2 if ctx.quick else 3
     maxlen = 3 if ctx.quick else 4
-    sets = service_sets(maxset)
+    sets = service_sets(maxset) + wide_sets(maxset)
     confs = [(s, g) for s in sets for g in (0, 1, 2)]
     # big layers first, chunks sized by expected work (alphabet^maxlen grows with the number of services)
     confs.sort(key=lambda c: (-len(c[0]), c[1], c[0]))
@@ -531,6 +562,8 @@ def run(ctx: Ctx) -> None:
         units.append((maxlen, confs[i:i + n], ctx.quick or len(units) % 5 == 0))
         i += n
     ctx.bounds = {"service_shapes": SHAPE_NAMES, "services_per_layer": f"1..{maxset} (all ordered sets)",
+                  "second_alphabet": {"shapes": WIDE_ALPHABET, "sets": f"all ordered sets of 1..{maxset} containing one of {WIDE_NAMES}",
+                                      "what": "leading constant = one 16 / 24 bit CODED-CONST, 4+4 and 4+12 bit splits"},
                   "global_negative_responses": "0, 1 (with MATCHING-REQUEST-PARAM), 2 (second one without)",
                   "layers": len(confs), "message_length": f"all byte strings of length 0..{maxlen} over the layer's constants + 00, FF",
                   "own_encodings": {"request u8": VALUES["u8"], "request u16": VALUES["u16"], "response u8": RESP_VALUES["u8"], "nrc": "every listed value"},
@@ -553,7 +586,7 @@ def run(ctx: Ctx) -> None:
     ctx.counts["traces_validated_against_impl"] = ctx.counts.get("decode_calls", 0) + ctx.counts.get("decode_response_calls", 0)
     ctx.counts["states"] = ctx.counts.get("layers", 0)
     ctx.counts["transitions"] = ctx.counts.get("evaluations", 0)
-    ctx.guard("every service shape used", ctx.sets.get("shapes", set()) == set(SHAPE_NAMES))
+    ctx.guard("every service shape used", ctx.sets.get("shapes", set()) == set(SHAPE_NAMES) | set(WIDE_NAMES))
     ctx.guard("all three GNR configurations used", ctx.sets.get("gnr_configs", set()) == {0, 1, 2})
     ctx.guard("decode both reported and refused messages", ctx.counts.get("decode_reports", 0) > 100 and ctx.counts.get("decode_errors", 0) > 100)
     ctx.guard("MUST, MAY and MUST-NOT services all seen", ctx.sets.get("status", set()) == {MUST, MAY, MUSTNOT})
